@@ -306,6 +306,14 @@ def lib_raises(full: str, call: ast.Call, facts: TypeFacts) -> list[str]:
             out.append("builtins.UnicodeDecodeError")
         if name in ("pathlib.Path.read_text",):
             out.append("builtins.UnicodeDecodeError")
+    # ordering values whose element type is not established (raw parsed data: Any) compares arbitrary objects
+    if full.split("|")[0] in ("builtins.sorted", "builtins.min", "builtins.max") or (text.endswith(".sort") and "list" in (facts.receiver(call) or "")):
+        arg = call.args[0] if call.args else None
+        t = (facts.type_of(arg) if arg is not None else facts.receiver(call)) or ""
+        mapped_to_str = isinstance(arg, ast.Call) and ast.unparse(arg.func) == "map" and arg.args \
+            and ast.unparse(arg.args[0]) in ("str", "repr", "int", "float", "len")
+        if not any(k.arg == "key" for k in call.keywords) and re.search(r"\bAny\b", t) and not mapped_to_str:
+            out.append("builtins.TypeError")
     if re.fullmatch(r"_LICENSING\.parse", text):
         out += ["license_expression.ExpressionError", "boolean.boolean.ParseError"]
     return sorted(set(out))
